@@ -402,33 +402,42 @@ fn str_prefix6(ost: Option<String>) -> Result<Option<Prefix6>, Error> {
 }
 
 fn str_duration(ost: Option<String>) -> Result<Option<std::time::Duration>, Error> {
+    fn too_large() -> Error {
+        Error::InvalidConfig("Duration out of range".into())
+    }
+    /* Adds num * mult seconds to ret, where num is the number in front of the unit. */
+    fn add_unit(
+        ret: std::time::Duration,
+        num: Option<u64>,
+        unit: char,
+        mult: u64,
+    ) -> Result<std::time::Duration, Error> {
+        let num = num.ok_or_else(|| {
+            Error::InvalidConfig(format!("Unit {} without a number in duration", unit))
+        })?;
+        let secs = num.checked_mul(mult).ok_or_else(too_large)?;
+        ret.checked_add(std::time::Duration::from_secs(secs))
+            .ok_or_else(too_large)
+    }
     ost.map(|st| {
-        let mut num = None;
-        let mut ret = Default::default();
+        let mut num: Option<u64> = None;
+        let mut ret: std::time::Duration = Default::default();
         for c in st.chars() {
             match c {
                 '0'..='9' => {
-                    if let Some(n) = num {
-                        num = Some(n * 10 + c as u64 - '0' as u64);
-                    } else {
-                        num = Some(c as u64 - '0' as u64);
-                    }
+                    let digit = c as u64 - '0' as u64;
+                    num = Some(
+                        num.unwrap_or(0)
+                            .checked_mul(10)
+                            .and_then(|n| n.checked_add(digit))
+                            .ok_or_else(too_large)?,
+                    );
                 }
-                's' => {
-                    ret += std::time::Duration::from_secs(num.take().unwrap());
-                }
-                'm' => {
-                    ret += std::time::Duration::from_secs(num.take().unwrap() * 60);
-                }
-                'h' => {
-                    ret += std::time::Duration::from_secs(num.take().unwrap() * 3600);
-                }
-                'd' => {
-                    ret += std::time::Duration::from_secs(num.take().unwrap() * 86400);
-                }
-                'w' => {
-                    ret += std::time::Duration::from_secs(num.take().unwrap() * 7 * 86400);
-                }
+                's' => ret = add_unit(ret, num.take(), c, 1)?,
+                'm' => ret = add_unit(ret, num.take(), c, 60)?,
+                'h' => ret = add_unit(ret, num.take(), c, 3600)?,
+                'd' => ret = add_unit(ret, num.take(), c, 86400)?,
+                'w' => ret = add_unit(ret, num.take(), c, 7 * 86400)?,
                 x if x.is_whitespace() => (),
                 '_' => (),
                 _ => {
@@ -440,7 +449,9 @@ fn str_duration(ost: Option<String>) -> Result<Option<std::time::Duration>, Erro
             }
         }
         if let Some(n) = num {
-            ret += std::time::Duration::from_secs(n);
+            ret = ret
+                .checked_add(std::time::Duration::from_secs(n))
+                .ok_or_else(too_large)?;
         }
         Ok(ret)
     })
